@@ -83,7 +83,7 @@ def toIeee (n es eb mb a : Nat) : Nat :=
   else
     let v := decode n es a
     let bias : Int := 2 ^ (eb - 1) - 1
-    ((if v.sign then 1 else 0) <<< (eb + mb)) ||| ((v.scale + bias).toNat <<< mb) ||| (v.frac <<< (mb - v.fb))
+    (if v.sign then 1 else 0) * 2 ^ (eb + mb) + (v.scale + bias).toNat * 2 ^ mb + v.frac * 2 ^ (mb - v.fb)
 
 /-- `to_long_double()` as (se, mant) -/
 def toX87 (n es a : Nat) : Nat × Nat :=
